@@ -63,6 +63,26 @@ def gen(rng, tier):
             for _ in range(rng.randint(1, 2)):
                 ops.insert(rng.randint(0, len(ops)), "render")
         cases.append({"f": a, "t": b, "opts": rng.choice(S.OPT_SETS), "ops": ops, "color": rng.random() < 0.5})
+    # the operations also on SUB-edits reached by listing (monitor only: the model is driven at the root)
+    nested_docs = [({"settings": {"id": 7, "title": "release notes"}, "n": 1}, {"settings": {"name": "release notes", "body": "x" * 30}, "n": 2}, {}),
+                   ([[1, 2, 3], [4, 5, 6]], [[1, 2, 4], [4, 5, 7]], {}), ({"k": {"a": 1, "b": "yyyy"}}, {"k": {"c": "yyyy", "d": "yyzz"}}, {}),
+                   ({"k": {"a": 1, "b": "yyyy"}}, {"k": {"c": "yyyy", "d": "yyzz"}}, {"auto_match_keys": False}),
+                   ([{"a": [1, 2]}, "x"], [{"a": [2, 1, 3]}, "y"], {}), ({"a": {"b": {"c": "hello"}}}, {"a": {"b": {"d": "help"}}}, {})]
+    sub_ops = ["tighten", "tighten", "bounds", "complete", "edits", "nonzero"]
+    for k in range(160 if tier == "quick" else 4000):
+        if k % 3:
+            f, t, o = nested_docs[k % len(nested_docs)]
+        else:
+            f, t = T.gen_skewed(rng)
+            o = rng.choice(S.OPT_SETS)
+        ops = []
+        for _ in range(rng.choice([2, 3, 5, 8, 13])):
+            if rng.random() < 0.6:
+                path = ".".join(str(rng.randint(0, 2)) for _ in range(rng.randint(1, 3)))
+                ops.append(f"sub:{path}:{rng.choice(sub_ops)}")
+            else:
+                ops.append(rng.choice(OPS))
+        cases.append({"f": f, "t": t, "opts": o, "ops": ops, "color": False})
     for k in range(n // 10):
         a = T.gen_spec(rng)
         b = T.mutate_spec(rng, a) if rng.random() < 0.85 else T.gen_spec(rng)
@@ -110,8 +130,23 @@ def run_ops(case, quiet):
     e = A.edits(B)
     results = []
     err = None
-    for op in case["ops"]:
+    for op0 in case["ops"]:
         try:
+            op, e_root = op0, e
+            if op0.startswith("sub:"):
+                # the same operations applied to a SUB-edit obtained by listing (path of indices into edits() lists)
+                _, path, op = op0.split(":")
+                cur = e_root
+                for ix in [int(x) for x in path.split(".") if x != ""]:
+                    subs = list(cur.edits()) if hasattr(cur, "edits") else []
+                    if ix >= len(subs):
+                        cur = None
+                        break
+                    cur = subs[ix]
+                if cur is None:
+                    results.append("no-such-sub-edit")
+                    continue
+                e = cur
             if op == "bounds":
                 results.append(L.rng(e.bounds()))
             elif op == "tighten":
@@ -137,11 +172,13 @@ def run_ops(case, quiet):
                     results.append("render-raised:" + type(ex).__name__)
             else:
                 results.append("unknown-op")
+            e = e_root
         except Exception as ex:
             if type(ex).__name__ == "Hang":
                 raise
             results.append({"raise": type(ex).__name__, "msg": str(ex)[:120]})
             err = type(ex).__name__
+            e = e_root
             break
     fin = None
     if err is None:
@@ -228,7 +265,7 @@ def in_model_domain(case):
 
 
 def to_model(case, obs):
-    if not MODEL_READY or "render" in case["ops"] or not isinstance(obs, dict) or obs.get("error"):
+    if not MODEL_READY or "render" in case["ops"] or any(o.startswith("sub:") for o in case["ops"]) or not isinstance(obs, dict) or obs.get("error"):
         return None
     if not in_model_domain(case):
         return None
